@@ -153,15 +153,16 @@ theorem split_map {γ : Type} (f : β → γ) (obs : List (β × Bool)) :
 end TV.Split
 
 namespace TV.Split
+variable {α : Type}
 
-theorem threshold_lt (ths : List Rat) (i : Nat) (h : i < ths.length) :
-    threshold ths i = some (some ths[i]) := by
+theorem threshold_lt (fmax : α) (ths : List α) (i : Nat) (h : i < ths.length) :
+    threshold fmax ths i = some ths[i] := by
   unfold threshold
   have h' : ths.length ≥ i := Nat.le_of_lt h
   simp [h', List.getElem?_eq_getElem h]
 
 /-- quantification over the positions of a row, split at the head -/
-theorem forall_idx_cons {P : Nat → Option Rat → Prop} (x : Option Rat) (vs : List (Option Rat)) :
+theorem forall_idx_cons {P : Nat → Option α → Prop} (x : Option α) (vs : List (Option α)) :
     (∀ i w, (x :: vs)[i]? = some w → P i w) ↔ (P 0 x ∧ ∀ i w, vs[i]? = some w → P (i + 1) w) := by
   constructor
   · intro h
@@ -171,10 +172,12 @@ theorem forall_idx_cons {P : Nat → Option Rat → Prop} (x : Option Rat) (vs :
     | zero => simp at hw; subst hw; exact h0
     | succ i => exact hs i w (by simpa using hw)
 
+variable [LE α] [DecidableLE α]
+
 /-- AND mode: the fold is `acc` and "every non-NaN value is ≤ its threshold" -/
-theorem foldCmp_and (ths : List Rat) : ∀ (vals : List (Option Rat)) (idx : Nat) (acc : Bool),
+theorem foldCmp_and (fmax : α) (ths : List α) : ∀ (vals : List (Option α)) (idx : Nat) (acc : Bool),
     idx + vals.length ≤ ths.length →
-    ∃ r, foldCmp true ths idx vals acc = some r ∧
+    ∃ r, foldCmp fmax true ths idx vals acc = some r ∧
       (r = true ↔ acc = true ∧ ∀ i w, vals[i]? = some w → ∀ v th, w = some v → ths[idx + i]? = some th → v ≤ th) := by
   intro vals
   induction vals with
@@ -198,7 +201,7 @@ theorem foldCmp_and (ths : List Rat) : ∀ (vals : List (Option Rat)) (idx : Nat
     | some v =>
       have hidx : idx < ths.length := by omega
       obtain ⟨r, hr, hiff⟩ := ih (idx + 1) (acc && decide (v ≤ ths[idx])) (by omega)
-      refine ⟨r, by simpa [foldCmp, threshold_lt ths idx hidx] using hr, ?_⟩
+      refine ⟨r, by simpa [foldCmp, threshold_lt fmax ths idx hidx] using hr, ?_⟩
       rw [hiff]
       have e : ∀ i, idx + 1 + i = idx + (i + 1) := by intro i; omega
       simp only [e, Bool.and_eq_true, decide_eq_true_eq, Nat.add_zero]
@@ -213,9 +216,10 @@ theorem foldCmp_and (ths : List Rat) : ∀ (vals : List (Option Rat)) (idx : Nat
         exact ⟨⟨a, c v ths[idx] rfl (List.getElem?_eq_getElem hidx)⟩, b⟩
 
 /-- OR mode: the fold is `acc` or "some non-NaN value is ≤ its threshold" -/
-theorem foldCmp_or (ths : List Rat) : ∀ (vals : List (Option Rat)) (idx : Nat) (acc : Bool),
+theorem foldCmp_or [LT α] (hnot : ∀ a b : α, ¬ a ≤ b ↔ b < a) (fmax : α) (ths : List α) :
+    ∀ (vals : List (Option α)) (idx : Nat) (acc : Bool),
     idx + vals.length ≤ ths.length →
-    ∃ r, foldCmp false ths idx vals acc = some r ∧
+    ∃ r, foldCmp fmax false ths idx vals acc = some r ∧
       (r = false ↔ acc = false ∧ ∀ i w, vals[i]? = some w → ∀ v th, w = some v → ths[idx + i]? = some th → th < v) := by
   intro vals
   induction vals with
@@ -239,10 +243,10 @@ theorem foldCmp_or (ths : List Rat) : ∀ (vals : List (Option Rat)) (idx : Nat)
     | some v =>
       have hidx : idx < ths.length := by omega
       obtain ⟨r, hr, hiff⟩ := ih (idx + 1) (acc || decide (v ≤ ths[idx])) (by omega)
-      refine ⟨r, by simpa [foldCmp, threshold_lt ths idx hidx] using hr, ?_⟩
+      refine ⟨r, by simpa [foldCmp, threshold_lt fmax ths idx hidx] using hr, ?_⟩
       rw [hiff]
       have e : ∀ i, idx + 1 + i = idx + (i + 1) := by intro i; omega
-      simp only [e, Bool.or_eq_false_iff, decide_eq_false_iff_not, Rat.not_le, Nat.add_zero]
+      simp only [e, Bool.or_eq_false_iff, decide_eq_false_iff_not, hnot, Nat.add_zero]
       constructor
       · rintro ⟨⟨a, c⟩, b⟩
         refine ⟨a, ?_, b⟩
